@@ -913,7 +913,11 @@ class PersistentDict(collections.abc.MutableMapping):
 
     def reload(self):
         """Force a reload from disk, overwriting current cache"""
-        self._cache = dict(self._func.items())
+        # Update the cache in place: the finalizer that syncs it to disk when this
+        # instance is collected holds a reference to this very dict.
+        contents = dict(self._func.items())
+        self._cache.clear()
+        self._cache.update(contents)
 
 
 SEARCH_PATH = []
